@@ -54,6 +54,9 @@ func c11Predecessor(cmd, route string, ext bool) (line string, calls int, class 
 		return verb + "<" + box + ">" + params + "\r\n", 1, 2
 	case "refused":
 		return verb + "<" + box + ">" + params + " XNOSUCHPARAM=1\r\n", 0, 5
+	case "malformed":
+		// every parameter well-formed except the last token, which the parameter parser itself cannot split
+		return verb + "<" + box + ">" + params + " X=1=2\r\n", 0, 5
 	}
 	return "", 0, 0
 }
@@ -249,7 +252,7 @@ func C11(tier string) int {
 	if tier == "thorough" {
 		strLen, mutParams = 6, 2
 	}
-	run.Rule = fmt.Sprintf("(a) grammar-derived lines: %d path forms (null, plain, source-routed, quoted local part, quoted pairs, address literal, atext specials, UTF-8) x every subset of <=3 parameters with distinct keywords out of %d MAIL / %d RCPT parameter variants; (b) EVERY single-point mutation (delete, duplicate, replace by each of %q) of the lines with <=%d parameters; (c) ALL strings of <=%d characters over %q as the text after 'MAIL FROM:' and after 'RCPT TO:'; plus single-parameter lines with hexchars / code points that are well-formed but not permitted in the value (8-bit and control octets, beyond Unicode, surrogates, NUL); all x extension flags {all on, all off}; (d) every unmutated line of (a) once more as the line FOLLOWING a predecessor of the same command that sets every parameter and was {refused by the backend with 451, accepted (MAIL repeated inside the open transaction / a further RCPT), refused with 5xx for an unknown last parameter} - the judged line must reach the backend with its own values only (RCPT: under a recipient limit that the judged line just fits, since only accepted recipients count); (e) every unmutated line of (a) over implicit TLS (real handshake): same verdict as in plaintext; (f) lines whose keyword in front of the path is missing, misspelled or the other command's ('MAIL FORM:', 'MAIL TO:', 'RCPT FROM:', 'RCPT TOO:' ...): refused, no callback. Distinct by construction (enumeration; mutations may coincide, counted once per generating position); non-trivial = classified valid or definitely invalid by the independent reference grammar (ref/pathgrammar.go) - the 'unspecified' class is only checked for 'reply 250 <=> exactly one callback'. Oracle: valid => 250 and the backend receives exactly the mailbox and the decoded option values, every other field zero; invalid => 5xx and no callback.", len(c11Paths), len(c11MailParams), len(c11RcptParams), c11Mutators, mutParams, strLen, c11Alphabet)
+	run.Rule = fmt.Sprintf("(a) grammar-derived lines: %d path forms (null, plain, source-routed, quoted local part, quoted pairs, address literal, atext specials, UTF-8) x every subset of <=3 parameters with distinct keywords out of %d MAIL / %d RCPT parameter variants; (b) EVERY single-point mutation (delete, duplicate, replace by each of %q) of the lines with <=%d parameters; (c) ALL strings of <=%d characters over %q as the text after 'MAIL FROM:' and after 'RCPT TO:'; plus single-parameter lines with hexchars / code points that are well-formed but not permitted in the value (8-bit and control octets, beyond Unicode, surrogates, NUL); all x extension flags {all on, all off}; (d) every unmutated line of (a) once more as the line FOLLOWING a predecessor of the same command that sets every parameter and was {refused by the backend with 451, accepted (MAIL repeated inside the open transaction / a further RCPT), refused with 5xx for an unknown last parameter, refused for a last token the parameter parser cannot split} - the judged line must reach the backend with its own values only (RCPT: under a recipient limit that the judged line just fits, since only accepted recipients count); (e) every unmutated line of (a) over implicit TLS (real handshake): same verdict as in plaintext; (f) lines whose keyword in front of the path is missing, misspelled or the other command's ('MAIL FORM:', 'MAIL TO:', 'RCPT FROM:', 'RCPT TOO:' ...): refused, no callback. Distinct by construction (enumeration; mutations may coincide, counted once per generating position); non-trivial = classified valid or definitely invalid by the independent reference grammar (ref/pathgrammar.go) - the 'unspecified' class is only checked for 'reply 250 <=> exactly one callback'. Oracle: valid => 250 and the backend receives exactly the mailbox and the decoded option values, every other field zero; invalid => 5xx and no callback.", len(c11Paths), len(c11MailParams), len(c11RcptParams), c11Mutators, mutParams, strLen, c11Alphabet)
 	run.Assumptions = []string{"deliberately unspecified (not judged): missing angle brackets, space after the colon, irregular spacing, duplicate keywords, value on a flag parameter, domain syntax beyond non-empty, dot-strings with empty atoms, unknown ORCPT address types, SIZE >= 2^32, non-ASCII addresses without SMTPUTF8", "a quoted local part may reach the backend quoted or de-quoted"}
 	var cases []C11Case
 	seen := map[string]bool{}
@@ -358,7 +361,7 @@ func C11(tier string) int {
 		if !plain[i] {
 			continue
 		}
-		for _, pre := range []string{"tmp", "open", "refused"} {
+		for _, pre := range []string{"tmp", "open", "refused", "malformed"} {
 			c2 := cases[i]
 			c2.Pre = pre
 			cases = append(cases, c2)
